@@ -491,6 +491,9 @@ C17_run(H) ==
                       /\ hops[k].names = (IF ex.rdns THEN <<"name-of-hop">> ELSE <<>>)
          /\ (IF ex.private_target /\ ex.skip THEN hops[8].addr = "" /\ ~hops[8].reach ELSE hops[8].addr # "")
 
+\* C08 on the real kernel: outcome as configured and within the bound that follows from the parameters (handshake timeout included)
+C08_lab(H) == H.out.ok = H.par.expect.ok /\ (~H.par.expect.ok => H.out.notsupported = H.par.expect.notsupported) /\ H.out.elapsed_ms <= H.par.bound_ms
+
 \* C13: the document reported on a real kernel path equals KernelPath!Expected (CLI output has no destination flag:
 \* there the clipped length and the positive end-to-end sample show that the destination was recognised)
 C13_lab(H) ==
@@ -506,7 +509,8 @@ C13_lab(H) ==
                     /\ hops[k].ttl = ex.hops[k].ttl /\ hops[k].addr = ex.hops[k].addr
                     /\ (H.par.cli \/ hops[k].dest = ex.hops[k].dest)
                     /\ hops[k].rtt_us >= 0 /\ (hops[k].reach <=> hops[k].addr # "")
-              /\ (~H.par.skip => out.runs[r].dst = ex.hops[Len(ex.hops)].addr)
+              /\ ((~H.par.skip /\ ex.hops[Len(ex.hops)].dest) => out.runs[r].dst = ex.hops[Len(ex.hops)].addr)
+              /\ (~H.par.skip => out.runs[r].dst = H.par.target)
          \* (the end-to-end sample is taken before redaction: positive also when every hop is redacted)
          /\ Len(out.rtts_us) = H.par.e2e /\ \A i \in DOMAIN out.rtts_us : out.rtts_us[i] > 0
 
